@@ -2,9 +2,12 @@
 //! writes, line-aligned, the cases and what the implementation did.
 //!   verif-harness gen <suite> <quick|thorough> <seed> <outdir>   -> <outdir>/<suite>.cases/.impl
 //!   verif-harness exec <casesfile> <outfile>                     -> re-run given case lines
+mod app;
 mod cases;
+mod mux;
 mod obs;
 mod suites;
+mod tobs;
 mod util;
 use std::io::{BufRead, Write};
 
@@ -19,6 +22,7 @@ fn main() {
             match suite {
                 "C12" => suites::c12::gen(tier, seed, &mut emit),
                 "C15" => suites::c15::gen(tier, seed, &mut emit),
+                "SMOKE" => suites::streams::gen_smoke(tier, seed, &mut emit),
                 "C13" => suites::c13::gen(tier, seed, &mut emit),
                 "C14" => suites::c14::gen(tier, seed, &mut emit),
                 _ => { eprintln!("unknown suite {}", suite); std::process::exit(2); }
